@@ -527,8 +527,16 @@ impl Datamodel for NullDatamodel {
     }
 
     #[allow(non_snake_case)]
-    fn executeContent(&mut self, _fsm: &Fsm, _content_id: ExecutableContentId) -> bool {
-        // Nothing
+    fn executeContent(&mut self, fsm: &Fsm, content_id: ExecutableContentId) -> bool {
+        // Executable content that needs no data (e.g. <raise>, <send> with literal attributes,
+        // <if> with In()) works with the null data model too.
+        if let Some(ec) = fsm.executableContent.get(&content_id) {
+            for e in ec.iter() {
+                if !e.execute(self, fsm) {
+                    return false;
+                }
+            }
+        }
         true
     }
 }
